@@ -89,4 +89,92 @@ theorem guarded_g0_eq_fixed (p : Nat) :
   funext a b
   exact guarded_cmp_g0 a b
 
+/-! ## the comparison statistics (third clause of C13, at the level of the comparisons themselves)
+
+`statsRun g s pairs` is what `Guarded.maxDiff` / `Guarded.minDiff` hold after the comparisons `pairs`.  They bound every
+comparison made: a pair that compared equal differs by at most `maxDiff`; a pair that compared unequal differs by at least
+`minDiff`.  In particular, when `maxDiff = 0` after a count, every comparison the count made had the outcome an exact comparison
+of the stored values has (`stats_clear_exact`). -/
+
+theorem statsStep_max_mono (g : Nat) (s : CmpStats) (ab : Int × Int) : s.maxDiff ≤ (statsStep g s ab).maxDiff := by
+  unfold statsStep; simp only; split <;> omega
+
+theorem statsStep_min_anti (g : Nat) (s : CmpStats) (ab : Int × Int) : (statsStep g s ab).minDiff ≤ s.minDiff := by
+  unfold statsStep; simp only; split <;> omega
+
+theorem statsRun_max_mono (g : Nat) (s : CmpStats) (l : List (Int × Int)) : s.maxDiff ≤ (statsRun g s l).maxDiff := by
+  unfold statsRun
+  induction l generalizing s with
+  | nil => exact le_refl _
+  | cons x xs ih => simp only [List.foldl_cons]; exact le_trans (statsStep_max_mono g s x) (ih _)
+
+theorem statsRun_min_anti (g : Nat) (s : CmpStats) (l : List (Int × Int)) : (statsRun g s l).minDiff ≤ s.minDiff := by
+  unfold statsRun
+  induction l generalizing s with
+  | nil => exact le_refl _
+  | cons x xs ih => simp only [List.foldl_cons]; exact le_trans (ih _) (statsStep_min_anti g s x)
+
+/-- every pair that compared equal differs by at most `maxDiff` -/
+theorem stats_maxDiff_bounds (g : Nat) (s : CmpStats) (l : List (Int × Int)) (ab : Int × Int) (hm : ab ∈ l)
+    (he : guardedCmp g ab.1 ab.2 = 0) : |ab.1 - ab.2| ≤ (statsRun g s l).maxDiff := by
+  have habs : ((ab.1 - ab.2).natAbs : Int) = |ab.1 - ab.2| := Int.natCast_natAbs _
+  induction l generalizing s with
+  | nil => cases hm
+  | cons x xs ih =>
+    have hrun : statsRun g s (x :: xs) = statsRun g (statsStep g s x) xs := rfl
+    rw [hrun]
+    rcases List.mem_cons.1 hm with rfl | hin
+    · refine le_trans ?_ (statsRun_max_mono g _ xs)
+      have hlt : |ab.1 - ab.2| < geps g := by
+        rw [lt_geps_iff g _ (abs_nonneg _)]; exact (guarded_cmp_eq_iff g _ _).1 he
+      unfold statsStep
+      simp only [habs]
+      split <;> omega
+    · exact ih _ hin
+
+/-- every pair that compared unequal differs by at least `minDiff` -/
+theorem stats_minDiff_bounds (g : Nat) (s : CmpStats) (l : List (Int × Int)) (ab : Int × Int) (hm : ab ∈ l)
+    (he : guardedCmp g ab.1 ab.2 ≠ 0) : (statsRun g s l).minDiff ≤ |ab.1 - ab.2| := by
+  have habs : ((ab.1 - ab.2).natAbs : Int) = |ab.1 - ab.2| := Int.natCast_natAbs _
+  induction l generalizing s with
+  | nil => cases hm
+  | cons x xs ih =>
+    have hrun : statsRun g s (x :: xs) = statsRun g (statsStep g s x) xs := rfl
+    rw [hrun]
+    rcases List.mem_cons.1 hm with rfl | hin
+    · refine le_trans (statsRun_min_anti g _ xs) ?_
+      have hge : ¬ |ab.1 - ab.2| < geps g := by
+        rw [lt_geps_iff g _ (abs_nonneg _)]; intro h; exact he ((guarded_cmp_eq_iff g _ _).2 h)
+      unfold statsStep
+      simp only [habs]
+      split <;> omega
+    · exact ih _ hin
+
+/-- **clear statistics: every comparison was exact.**  If `maxDiff` is still 0 after the comparisons `l` (from the state
+    `Guarded.initialize` leaves), each of them had the outcome of the exact comparison of the stored values -/
+theorem stats_clear_exact (p g : Nat) (l : List (Int × Int)) (h0 : (statsRun g (statsInit p g) l).maxDiff = 0)
+    (ab : Int × Int) (hm : ab ∈ l) : guardedCmp g ab.1 ab.2 = intCmp ab.1 ab.2 := by
+  by_cases he : guardedCmp g ab.1 ab.2 = 0
+  · have hb := stats_maxDiff_bounds g (statsInit p g) l ab hm he
+    rw [h0] at hb
+    have : ab.1 = ab.2 := by
+      have := abs_nonneg (ab.1 - ab.2)
+      have h0' : |ab.1 - ab.2| = 0 := le_antisymm hb this
+      have := abs_eq_zero.1 h0'
+      omega
+    rw [he, this]; unfold intCmp; simp
+  · have hno : ¬ 2 * |ab.1 - ab.2| < pow10 g := fun h => he ((guarded_cmp_eq_iff g _ _).2 h)
+    obtain ⟨h1, h2⟩ := guarded_cmp_order g ab.1 ab.2 hno
+    rcases guarded_trichotomy g ab.1 ab.2 with hc | hc | hc
+    · have := h2.1 hc; rw [hc]; unfold intCmp; simp [this]
+    · exact absurd hc he
+    · have := h1.1 hc; rw [hc]; unfold intCmp
+      have h3 : ¬ ab.1 < ab.2 := by omega
+      have h4 : ¬ ab.1 = ab.2 := by omega
+      simp [h3, h4]
+
+/-- non-vacuity: a sequence with a sub-tolerance difference is recorded whichever operand is larger -/
+example : (statsRun 4 (statsInit 2 4) [(100, 3434), (7, 7), (90000, 10)]).maxDiff = 3334 := by decide
+example : (statsRun 4 (statsInit 2 4) [(7, 7), (90000, 10)]).maxDiff = 0 := by decide
+
 end Droop
